@@ -7,14 +7,14 @@ import connfam as cf
 SPECS = ['Transport.tla', 'TransportTrace.tla']
 INVS = ['PoolBound', 'IdleBound', 'OpenBound', 'NoDuplicates', 'PooledDisjoint', 'NoLeak', 'PooledRightAddress',
         'RecoveryBound', 'CloseClosesAll', 'ClosedAllShut']
-PROPS = ['NoDeadHandout', 'SpareBusy', 'RightAddress', 'NoCollateralClose']
+PROPS = ['NoDeadHandout', 'SpareBusy', 'RightAddress', 'NoCollateralClose', 'AbandonedSpared']
 TRACE_INVS = ['PoolBound', 'IdleBound', 'NoDuplicates', 'PooledDisjoint', 'PooledRightAddress', 'RecoveryBound',
               'NoWrongAddress', 'NoDeadHandoutTr', 'NoBusyClosed', 'AppendWithinLimit', 'CloseClosedAll', 'NoOtherError', 'NoDupExec', 'NoHealthyMarkedDead', 'NoDupSignal', 'NoRawRefusal']
 OWN = {'PoolBound': 'C13', 'IdleBound': 'C13', 'OpenBound': 'C13', 'NoDuplicates': 'C13', 'PooledDisjoint': 'C13', 'NoLeak': 'C13',
        'AppendWithinLimit': 'C13',
        'PooledRightAddress': 'C14', 'RecoveryBound': 'C14', 'NoDeadHandout': 'C14', 'RightAddress': 'C14', 'NoWrongAddress': 'C14',
        'NoDeadHandoutTr': 'C14', 'NoOtherError': 'C14',
-       'NoDupExec': 'C04', 'NoDupSignal': 'C02', 'NoRawRefusal': 'C14', 'NoHealthyMarkedDead': 'C19', 'NoCollateralClose': 'C19', 'SpareBusy': 'C15', 'CloseClosesAll': 'C15', 'ClosedAllShut': 'C15', 'NoBusyClosed': 'C15', 'CloseClosedAll': 'C15'}
+       'NoDupExec': 'C04', 'NoDupSignal': 'C02', 'NoRawRefusal': 'C14', 'NoHealthyMarkedDead': 'C19', 'NoCollateralClose': 'C19', 'SpareBusy': 'C15', 'AbandonedSpared': 'C15', 'CloseClosesAll': 'C15', 'ClosedAllShut': 'C15', 'NoBusyClosed': 'C15', 'CloseClosedAll': 'C15'}
 
 def consts(addrs=('a',), ids=3, callers=(1, 2), maxconns=2, maxidle=1, ka=1, ito=2, maxclock=3, maxcalls=2, kills=1, dev=()):
     return {'Addrs': set(addrs), 'ConnIds': set(range(1, ids + 1)), 'Callers': set(callers), 'MaxConns': maxconns, 'MaxIdle': maxidle,
@@ -42,8 +42,8 @@ def to_steps(acts):
             steps.append({'a': name, 'addr': a[0]})
         elif name == 'Drop':
             steps.append({'a': 'Drop', 'k': a[0]})
-        elif name == 'Expire':
-            steps.append({'a': 'Expire', 'k': a[0]})
+        elif name in ('Expire', 'LateAnswer'):
+            steps.append({'a': name, 'k': a[0]})
             for st in reversed(steps[:-1]):      # the call this caller has in flight was made with CallWithContext
                 if st['a'] == 'Get' and st['k'] == a[0]:
                     st['ctx'] = True
@@ -52,9 +52,9 @@ def to_steps(acts):
 
 FORMS = [['call'], ['call', 'go', 'rt'], ['stream', 'call'], ['rt'], ['go', 'stream']]
 
-def sched(name, c, acts, forms=None, ioerr=False):
+def sched(name, c, acts, forms=None, ioerr=False, closeerr=False):
     cfg = {'Addrs': sorted(c['Addrs']), 'MaxConns': c['MaxConns'], 'MaxIdle': c['MaxIdle'], 'KeepAlive': c['KeepAlive'],
-           'IdleTO': c['IdleTO'], 'UnitMs': 50, 'Forms': forms or ['call'], 'IOErr': ioerr}
+           'IdleTO': c['IdleTO'], 'UnitMs': 50, 'Forms': forms or ['call'], 'IOErr': ioerr, 'CloseErr': closeerr}
     return {'name': name, 'cfg': cfg, 'steps': to_steps(acts)}
 
 def deviation_schedule(tag, c, dev):
@@ -69,7 +69,7 @@ def sim_schedules(tag, c, num, depth, seed_):
     wd = scratch('tsim_' + tag)
     behs, res = simulate(wd, 'Transport.tla', cfg_text('Spec', c, [], []), ['Transport.tla'], num, depth, seed_)
     shutil.rmtree(wd, ignore_errors=True)
-    return [sched('sim:%s:%d' % (tag, i), c, b, FORMS[i % len(FORMS)], ioerr=(i % 3 == 1)) for i, b in enumerate(behs)], res
+    return [sched('sim:%s:%d' % (tag, i), c, b, FORMS[i % len(FORMS)], ioerr=(i % 3 == 1), closeerr=(i % 4 == 2)) for i, b in enumerate(behs)], res
 
 def group_key(cfg):
     return '%s_%d_%d' % ('-'.join(cfg['Addrs']), cfg['MaxConns'], cfg['MaxIdle'])
